@@ -178,8 +178,9 @@ def podRefs (u : SUnit) (sec : Str) : List Str :=
 def readsOf (q : QUnit) : List Str :=
   let u := q.unit
   let ty := q.ty
-  if ty == s "image" || ty == s "network" then []
+  if ty == s "image" then []
   else if ty == s "volume" then (match lookup u (s "Volume") (s "Image") with | some img => imageRefs img | none => [])
+  else if ty == s "network" then []
   else if ty == s "build" then [q.name] ++ networkRefs u (s "Build") ++ volumeRefs q.path u (s "Build")
   else if ty == s "kube" then networkRefs u (s "Kube")
   else if ty == s "pod" then networkRefs u (s "Pod") ++ volumeRefs q.path u (s "Pod")
